@@ -1235,6 +1235,16 @@ def getitem(arr, idx):
                 return z3.And(py_mod(d, step) == 0, li >= 0, li < dim_term(cnt)), (li,)
             r.inv = inv
             r.is_unit_prefix = z3.is_int_value(sv) and sv.as_long() == 1
+        elif getattr(arr, "inv", None) is not None and arr.ndim == 1:
+            # a slice of a sliced view: compose the inverse address maps (writes through it reach the base buffer)
+            outer = arr.inv
+
+            def inv2(p, first=first, step=step, cnt=cnt):
+                inside, (la,) = outer(p)
+                d = la - first
+                li = py_floordiv(d, step)
+                return z3.And(inside, py_mod(d, step) == 0, li >= 0, li < dim_term(cnt)), (li,)
+            r.inv = inv2
         return r
     if isinstance(idx, (SInt, numbers.Integral, _np.integer)) and not isinstance(idx, bool):
         t = I(idx)
